@@ -118,7 +118,7 @@ theorem jappendPath_inv {s : JSt} {xs : List Nat} (h : JInvP s xs) (hrun : s.pc 
   simp only [live, hrun] at hcat
   by_cases hlt : (s.buf ++ xs).length < s.cfg.size
   · have hlt' : s.buf.length + xs.length < s.cfg.size := by simpa using hlt
-    have e : jappendPath s xs t = { s with buf := s.buf ++ xs, events := s.events ++ [JEvent.write] } := by
+    have e : jappendPath s xs t = { s with buf := s.buf ++ xs, events := s.events ++ [JEvent.write], firstAt := (if s.buf = [] then t else s.firstAt) } := by
       simp only [jappendPath, jappend]
       simp [hlt']
     rw [e]
@@ -131,12 +131,12 @@ theorem jappendPath_inv {s : JSt} {xs : List Nat} (h : JInvP s xs) (hrun : s.pc 
       intro e; rw [e] at hlt; simp at hlt; have := h.sizePos; omega
     have hle : (s.buf ++ xs).length ≤ s.cfg.size := by simpa using hfit
     have hlt' : ¬ s.buf.length + xs.length < s.cfg.size := by simpa using hlt
-    have e : jappendPath s xs t = jpass { s with buf := s.buf ++ xs, events := s.events ++ [JEvent.write] } t false none := by
+    have e : jappendPath s xs t = jpass { s with buf := s.buf ++ xs, events := s.events ++ [JEvent.write], firstAt := (if s.buf = [] then t else s.firstAt) } t false none := by
       simp only [jappendPath, jappend]
       simp [hlt']
     rw [e]
     by_cases hc : s.cfg.noCopy = true
-    · have e2 : jpass { s with buf := s.buf ++ xs, events := s.events ++ [JEvent.write] } t false none = { s with buf := s.buf ++ xs, events := s.events ++ [JEvent.write] ++ [JEvent.emit 0 (s.buf ++ xs)], out := s.out ++ [s.buf ++ xs], emitAt := s.emitAt ++ [t], byTick := s.byTick ++ [false], pc := .await none } := by
+    · have e2 : jpass { s with buf := s.buf ++ xs, events := s.events ++ [JEvent.write], firstAt := (if s.buf = [] then t else s.firstAt) } t false none = { s with firstAt := (if s.buf = [] then t else s.firstAt), buf := s.buf ++ xs, events := s.events ++ [JEvent.write] ++ [JEvent.emit 0 (s.buf ++ xs)], out := s.out ++ [s.buf ++ xs], emitAt := s.emitAt ++ [t], byTick := s.byTick ++ [false], pc := .await none } := by
         simp [jpass, hne, hc, jsend]
       rw [e2]
       refine ⟨⟨?_, ?_, fun hn => by simp at hn, hle, ?_, ?_, fun _ _ => hc, ?_, h.sizePos, Or.inl rfl, fun hcl => absurd hrun (h.closingPc hcl).1, fun hu => absurd (h.unrel hu) (by rw [hrun]; simp)⟩, rfl⟩
@@ -152,7 +152,7 @@ theorem jappendPath_inv {s : JSt} {xs : List Nat} (h : JInvP s xs) (hrun : s.pc 
         · simp at hl hle; omega
       · intro i ys hn; simp at hn
     · have hc' : s.cfg.noCopy = false := by simpa using hc
-      have e2 : jpass { s with buf := s.buf ++ xs, events := s.events ++ [JEvent.write] } t false none = { s with buf := [], events := s.events ++ [JEvent.write] ++ [JEvent.emit s.nextId (s.buf ++ xs)] ++ [JEvent.write], out := s.out ++ [s.buf ++ xs], emitAt := s.emitAt ++ [t], byTick := s.byTick ++ [false], nextId := s.nextId + 1, passAt := t } := by
+      have e2 : jpass { s with buf := s.buf ++ xs, events := s.events ++ [JEvent.write], firstAt := (if s.buf = [] then t else s.firstAt) } t false none = { s with firstAt := (if s.buf = [] then t else s.firstAt), buf := [], events := s.events ++ [JEvent.write] ++ [JEvent.emit s.nextId (s.buf ++ xs)] ++ [JEvent.write], out := s.out ++ [s.buf ++ xs], emitAt := s.emitAt ++ [t], byTick := s.byTick ++ [false], nextId := s.nextId + 1, passAt := t } := by
         simp [jpass, hne, hc', jsend, jafterPass]
       rw [e2]
       refine ⟨⟨?_, ?_, fun _ => by simpa using h.sizePos, by simp, ?_, ?_, ?_, ?_, h.sizePos, Or.inl rfl, fun hcl => absurd hrun (h.closingPc hcl).1, fun hu => absurd (h.unrel hu) (by rw [hrun]; simp)⟩, rfl⟩
